@@ -37,9 +37,9 @@ package encoding
 //@   call Index#2:
 //@     assert[C18] @groupstart anchored(string(data), startNoTag, noTag)
 //@   loop 1:
-//@     invariant[C11] 0 <= i
+//@     invariant[C11] 0 <= iter
 //@     invariant[C03] imp(istype(o, *fix.Raw), o.(*fix.Raw).value == old(o.(*fix.Raw).value) || noSOH(o.(*fix.Raw).value))
-//@     decreases cnt - i
+//@     decreases cnt - iter
 //@   loop 2:
 //@     invariant[C11] 0 <= iter
 //@     invariant[C03] imp(istype(o, *fix.Raw), o.(*fix.Raw).value == old(o.(*fix.Raw).value) || noSOH(o.(*fix.Raw).value))
